@@ -234,26 +234,33 @@ def run_case(w, c):
             M = w.Money
             code = c['code']
             o = dict(st='err', registered=False, name='', md=-1, fraction_is_pow10=False, same_object=False, rounds=False)
+            before = {u.symbol for u in M.units()}
             try:
                 cur = M.register_currency(code)
-                sf = Fraction(cur.smallest_fraction)
-                md = 0
-                while sf * 10 ** md < 1 and md < 12:
-                    md += 1
-                m = M(mk_amount([1234567, 10 ** 6], 'dec'), cur)
-                q = Fraction(m.amount) / sf
-                o.update(st='ok', registered=True, name=cur.name, md=md, fraction_is_pow10=(sf * 10 ** md == 1),
-                         same_object=(M.register_currency(code) is cur and Quantity('1 ' + code).unit is cur),
-                         rounds=(q.denominator == 1 and abs(Fraction(m.amount) - Fraction(1234567, 10 ** 6)) <= sf / 2
-                                 and cur.iso_code == code))
             except Exception as exc:
+                # rejected: nothing may have been registered - neither under the text given nor under any other symbol
                 from quantity import Unit
                 try:
                     Unit(code)
                     reg = True
                 except Exception:
                     reg = False
-                o.update(st='err', registered=reg, exc=type(exc).__name__)
+                o.update(st='err', registered=bool(reg or {u.symbol for u in M.units()} != before), exc=type(exc).__name__)
+            else:
+                o.update(st='ok', registered=True)
+                try:
+                    sf = Fraction(cur.smallest_fraction)
+                    md = 0
+                    while sf * 10 ** md < 1 and md < 12:
+                        md += 1
+                    m = M(mk_amount([1234567, 10 ** 6], 'dec'), cur)
+                    q = Fraction(m.amount) / sf
+                    o.update(name=cur.name, md=md, fraction_is_pow10=(sf * 10 ** md == 1),
+                             rounds=(q.denominator == 1 and abs(Fraction(m.amount) - Fraction(1234567, 10 ** 6)) <= sf / 2
+                                     and cur.iso_code == code))
+                    o['same_object'] = bool(M.register_currency(code) is cur and Quantity('1 ' + code).unit is cur)
+                except Exception as exc:
+                    o['exc'] = type(exc).__name__
             ev['obs'] = o
         elif op == 'newcur':
             from quantity import Unit, QuantityError
